@@ -251,6 +251,12 @@ theorem MidsDistinct.remove {l1 l2 : List Tr} {x : Tr} {m : Mid} (h : MidsDistin
 
 /-! ### the m-section loop of generateMatchedSDP -/
 
+@[simp] theorem Tr.narrow_kind (ans : Bool) (d : Dir) (t : Tr) : (t.narrow ans d).kind = t.kind := by
+  unfold Tr.narrow; split <;> rfl
+
+@[simp] theorem Tr.narrow_mid (ans : Bool) (d : Dir) (t : Tr) : (t.narrow ans d).mid = t.mid := by
+  unfold Tr.narrow; split <;> rfl
+
 theorem pushSec_ok {m : MSec} {isApp : Bool} {x : Except Err (List MSec × List Tr × Bool)}
     {ms : List MSec} {l : List Tr} {app : Bool} (h : pushSec m isApp x = .ok (ms, l, app)) :
     ∃ ms' app', x = .ok (ms', l, app') ∧ ms = m :: ms' ∧ app = (app' || isApp) := by
@@ -264,8 +270,8 @@ theorem pushSec_ok {m : MSec} {isApp : Bool} {x : Except Err (List MSec × List 
     exact ⟨ms', app', rfl, h1.symm, h3.symm⟩
 
 /-- every remote section yields exactly one media section carrying its mid, whatever the semantics -/
-theorem matchLoop_ids (sem : Sem) (dpb : Bool) : ∀ (secs : List Sec) (loc : List Tr) ms left app,
-    matchLoop sem dpb secs loc = .ok (ms, left, app) →
+theorem matchLoop_ids (sem : Sem) (dpb ans : Bool) : ∀ (secs : List Sec) (loc : List Tr) ms left app,
+    matchLoop sem dpb ans secs loc = .ok (ms, left, app) →
       ms.map (fun m => some m.id) = secs.map (·.mid) := by
   intro secs
   induction secs with
@@ -314,8 +320,9 @@ inductive Forall2 {α β : Type} (R : α → β → Prop) : List α → List β 
 /-- Unified Plan (and fallback without Plan-B detection): what is left over is a sublist of the local
     transceivers and has none of the mids of the remote audio/video sections; each section carries the
     offered media type provided a transceiver that holds an offered mid has the offered kind -/
-theorem matchLoop_unified (sem : Sem) (hsem : sem ≠ .planB) : ∀ (secs : List Sec) (loc : List Tr) ms left app,
-    matchLoop sem false secs loc = .ok (ms, left, app) → MidsDistinct loc →
+theorem matchLoop_unified (sem : Sem) (ans : Bool) (hsem : sem ≠ .planB) :
+    ∀ (secs : List Sec) (loc : List Tr) ms left app,
+    matchLoop sem false ans secs loc = .ok (ms, left, app) → MidsDistinct loc →
       left.Sublist loc ∧
       (∀ s ∈ secs, s.media ≠ mediaApplication → (kindOf s.media).isSome = true → ∀ t ∈ left, t.mid ≠ s.mid) ∧
       ((∀ s ∈ secs, ∀ t ∈ loc, s.mid.isSome = true → t.mid = s.mid → kindOf s.media = some t.kind) →
@@ -613,15 +620,15 @@ theorem populate_spec {st : St} {typ : SdpType} {role : Setup} {grp : Option (Op
 theorem generateMatched_answer {st : St} {r : Desc} {role : Setup} {d : Desc}
     (h : generateMatched st r false role = .ok d) (hr : (r.secs.filterMap (·.mid)).Nodup) :
     SpecC06 d ∧ d.secs.map (·.mid) = r.secs.map (·.mid) ∧ d.typ = .answer ∧
-      ∃ ms left app, matchLoop st.cfg.sem (st.cfg.sem != .unified && possiblyPlanB r) r.secs st.trs = .ok (ms, left, app) ∧
+      ∃ ms left app, matchLoop st.cfg.sem (st.cfg.sem != .unified && possiblyPlanB r) true r.secs st.trs = .ok (ms, left, app) ∧
         d.secs.map (·.media) = ms.map MSec.media := by
   unfold generateMatched at h
-  simp only at h
+  simp only [Bool.not_false] at h
   split at h
   · cases h
   · rename_i ms left app hml
     simp only [Bool.false_eq_true, if_false] at h
-    have hids := matchLoop_ids _ _ _ _ _ _ _ hml
+    have hids := matchLoop_ids _ _ _ _ _ _ _ _ hml
     have hn : (ms.map MSec.id).Nodup := by
       rw [← filterMap_of_map_some hids.symm]; exact hr
     obtain ⟨spec, hm, hmedia, ht⟩ := populate_spec h hn
@@ -704,8 +711,8 @@ theorem generateMatched_offer {st : St} {r : Desc} {role : Setup} {d : Desc}
   · cases h
   · rename_i ms left app hml
     simp only [if_true, Bool.false_eq_true, if_false] at h
-    have hids := matchLoop_ids _ _ _ _ _ _ _ hml
-    obtain ⟨hsub, hleft, _⟩ := matchLoop_unified _ hsem _ _ _ _ _ hml hd
+    have hids := matchLoop_ids _ _ _ _ _ _ _ _ hml
+    obtain ⟨hsub, hleft, _⟩ := matchLoop_unified _ _ hsem _ _ _ _ _ hml hd
     have hallL : ∀ t ∈ left, t.mid.isSome = true := fun t ht => hall t (hsub.subset ht)
     have hn1 : ((ms ++ left.map fun t => MSec.tr (t.mid.getD (.other "")) t).map MSec.id).Nodup := by
       rw [List.map_append, ids_of_trs hallL, ← filterMap_of_map_some hids.symm]
@@ -754,7 +761,7 @@ theorem createOffer_ok {st : St} {d : Desc} (h : (createOffer st).2 = .ok d) :
 
 theorem createAnswer_ok {st : St} {d : Desc} (h : (createAnswer st).2 = .ok d) :
     ∃ r, st.remoteDesc = some r ∧ st.sig = .haveRemoteOffer ∧ generateMatched st r false .active = .ok d ∧
-      (createAnswer st).1 = st.register d := by
+      (createAnswer st).1 = (answerState st r).register d := by
   unfold createAnswer at h ⊢
   split at h
   · cases h
@@ -1235,28 +1242,74 @@ theorem remoteTrs_distinct (st : St) (d : Desc) (h : MidsDistinct st.trs) (hd : 
     exact remoteLoop_inv _ _ _ _ hw hd (by simp)
   · exact h
 
-theorem setRemote_inv (st : St) (d : Desc) (inv : PeerInv st) (hd : DescOK d) : PeerInv (setRemote st d).1 := by
+/-- where SetRemoteDescription can leave the state -/
+theorem setRemote_shape (st : St) (d : Desc) :
+    (setRemote st d).1 = st ∨
+      ∃ st1, setDescRemote st d = .ok st1 ∧
+        ((setRemote st d).1 = { engineUpdate st1 d with trs := (remoteTrs (engineUpdate st1 d) d).1 } ∨
+         (d.typ = .answer ∧ (setRemote st d).1 =
+            { engineUpdate st1 d with trs := setCurrentDirections d true (remoteTrs (engineUpdate st1 d) d).1 })) := by
   unfold setRemote
   split
-  · exact inv
+  · exact Or.inl rfl
   · split
-    · exact inv
-    · rename_i st1 h1
-      obtain ⟨t1, g1, _⟩ := setDescRemote_same h1
-      obtain ⟨t2, g2, _⟩ := engineUpdate_same d st1
-      have hdist : MidsDistinct (remoteTrs (engineUpdate st1 d) d).1 :=
-        remoteTrs_distinct _ _ (by rw [t2, t1]; exact inv.distinct) hd
-      have hcnt : -1 ≤ (engineUpdate st1 d).greaterMid := by rw [g2, g1]; exact inv.counter
-      simp only
-      split
-      · exact ⟨hdist, hcnt⟩
+    · exact Or.inl rfl
+    · split
+      · exact Or.inl rfl
       · split
-        · exact ⟨hdist, hcnt⟩
+        · exact Or.inl rfl
         · split
-          · exact ⟨hdist, hcnt⟩
-          · split
-            · exact ⟨MidsDistinct.of_map_eq (setCurrentDirections_mid _ _ _) hdist, hcnt⟩
-            · exact ⟨hdist, hcnt⟩
+          · exact Or.inl rfl
+          · rename_i st1 h1
+            right
+            refine ⟨st1, h1, ?_⟩
+            simp only
+            split
+            · exact Or.inl rfl
+            · split
+              · rename_i ht; exact Or.inr ⟨ht, rfl⟩
+              · exact Or.inl rfl
+
+/-- … and where it leaves it when it succeeds -/
+theorem setRemote_success {st : St} {d : Desc} (hok : (setRemote st d).2 = .ok ()) :
+    ∃ st1, setDescRemote st d = .ok st1 ∧
+      ((d.typ ≠ .answer ∧
+          (setRemote st d).1 = { engineUpdate st1 d with trs := (remoteTrs (engineUpdate st1 d) d).1 }) ∨
+       (d.typ = .answer ∧ (setRemote st d).1 =
+          { engineUpdate st1 d with trs := setCurrentDirections d true (remoteTrs (engineUpdate st1 d) d).1 })) := by
+  unfold setRemote at hok ⊢
+  split at hok
+  · cases hok
+  · split at hok
+    · cases hok
+    · split at hok
+      · cases hok
+      · split at hok
+        · cases hok
+        · split at hok
+          · cases hok
+          · rename_i h1 h2 h3 h4 _ st1 h5
+            rw [if_neg h1, if_neg h2, if_neg h3, if_neg h4]
+            refine ⟨st1, h5, ?_⟩
+            simp only at hok ⊢
+            by_cases c : (!(remoteTrs (engineUpdate st1 d) d).2) = true
+            · rw [if_pos c] at hok; cases hok
+            · rw [if_neg c]
+              by_cases ht : d.typ = .answer
+              · rw [if_pos ht]; exact Or.inr ⟨ht, rfl⟩
+              · rw [if_neg ht]; exact Or.inl ⟨ht, rfl⟩
+
+theorem setRemote_inv (st : St) (d : Desc) (inv : PeerInv st) (hd : DescOK d) : PeerInv (setRemote st d).1 := by
+  rcases setRemote_shape st d with h | ⟨st1, h1, h2⟩
+  · rw [h]; exact inv
+  · obtain ⟨t1, g1, _⟩ := setDescRemote_same h1
+    obtain ⟨t2, g2, _⟩ := engineUpdate_same d st1
+    have hdist : MidsDistinct (remoteTrs (engineUpdate st1 d) d).1 :=
+      remoteTrs_distinct _ _ (by rw [t2, t1]; exact inv.distinct) hd
+    have hcnt : -1 ≤ (engineUpdate st1 d).greaterMid := by rw [g2, g1]; exact inv.counter
+    rcases h2 with h2 | ⟨_, h2⟩
+    · rw [h2]; exact ⟨hdist, hcnt⟩
+    · rw [h2]; exact ⟨MidsDistinct.of_map_eq (setCurrentDirections_mid _ _ _) hdist, hcnt⟩
 
 theorem setDescLocal_same {st st1 : St} {n : Nat} {d : Desc} (h : setDescLocal st n d = .ok st1) :
     st1.trs = st.trs ∧ st1.greaterMid = st.greaterMid ∧ st1.cfg = st.cfg ∧ st1.created = st.created ∧
@@ -1333,16 +1386,55 @@ theorem register_same (st : St) (d : Desc) :
   unfold St.register
   cases d.typ <;> simp
 
+theorem narrowLoop_mid : ∀ (secs : List Sec) (w : List (Tr × Bool)),
+    (narrowLoop secs w).map (·.1.mid) = w.map (·.1.mid) := by
+  intro secs
+  induction secs with
+  | nil => intro w; rfl
+  | cons s rest ih =>
+    intro w
+    simp only [narrowLoop]
+    split
+    · rfl
+    · split
+      · exact ih w
+      · split
+        · exact ih w
+        · split
+          · rfl
+          · rename_i w' hw'
+            rw [ih w']
+            obtain ⟨w1, t, w2, e1, _, e2⟩ := updFirst_some hw'
+            subst e1 e2
+            simp
+
+theorem answerState_same (st : St) (r : Desc) :
+    (answerState st r).trs.map (·.mid) = st.trs.map (·.mid) ∧ (answerState st r).greaterMid = st.greaterMid ∧
+    (answerState st r).cfg = st.cfg ∧ (answerState st r).curRemote = st.curRemote ∧
+    (answerState st r).pendRemote = st.pendRemote ∧ (answerState st r).created = st.created ∧
+    (answerState st r).createdPrev = st.createdPrev ∧ (answerState st r).sig = st.sig ∧
+    (answerState st r).serial = st.serial ∧ (answerState st r).curLocal = st.curLocal ∧
+    (answerState st r).pendLocal = st.pendLocal ∧ (answerState st r).lastAnswer = st.lastAnswer := by
+  unfold answerState
+  simp only
+  split
+  · exact ⟨rfl, rfl, rfl, rfl, rfl, rfl, rfl, rfl, rfl, rfl, rfl, rfl⟩
+  · refine ⟨?_, rfl, rfl, rfl, rfl, rfl, rfl, rfl, rfl, rfl, rfl, rfl⟩
+    have := narrowLoop_mid r.secs (st.trs.map fun t => (t, false))
+    simpa [List.map_map, Function.comp_def] using this
+
 theorem createAnswer_inv (st : St) (inv : PeerInv st) : PeerInv (createAnswer st).1 := by
   unfold createAnswer
   split
   · exact inv
-  · split
+  · rename_i r _
+    obtain ⟨at1, ag, _⟩ := answerState_same st r
+    split
     · exact inv
     · split
-      · exact inv
-      · obtain ⟨t, g, _⟩ := register_same st ‹Desc›
-        exact inv.of_trs (by rw [t]) g
+      · exact inv.of_trs at1 ag
+      · obtain ⟨t, g, _⟩ := register_same (answerState st r) ‹Desc›
+        exact inv.of_trs (by rw [t]; exact at1) (by rw [g]; exact ag)
 
 theorem createOffer_inv (st : St) (hsem : st.cfg.sem ≠ .planB) (inv : PeerInv st) (hw : NoWrap st) :
     PeerInv (createOffer st).1 := by
@@ -1392,12 +1484,12 @@ theorem answer_mids (st : St) (a : Desc) (h : (createAnswer st).2 = .ok a) :
       a.secs.length = offer.secs.length ∧ a.typ = .answer := by
   obtain ⟨r, hrd, _, hg, _⟩ := createAnswer_ok h
   unfold generateMatched at hg
-  simp only at hg
+  simp only [Bool.not_false] at hg
   split at hg
   · cases hg
   · rename_i ms left app hml
     simp only [Bool.false_eq_true, if_false] at hg
-    have hids := matchLoop_ids _ _ _ _ _ _ _ hml
+    have hids := matchLoop_ids _ _ _ _ _ _ _ _ hml
     unfold populate at hg
     split at hg
     · cases hg
